@@ -40,6 +40,7 @@ import (
 
 	"github.com/PowerDNS/lightningstream/config"
 	"github.com/PowerDNS/lightningstream/lmdbenv/header"
+	"github.com/PowerDNS/lightningstream/snapshot"
 	"github.com/PowerDNS/lightningstream/snapshot/storage"
 	"github.com/PowerDNS/lightningstream/status/healthtracker"
 	"github.com/PowerDNS/lightningstream/syncer"
@@ -1432,7 +1433,7 @@ func areaConcRaceChild(r *Rng, n int, dir string) (*AreaOut, error) {
 			sy, err := newSyncer(env, bucket, syncerOpts{Native: false, Instance: inst, SyncerOpt: syncer.Options{Events: ev}, Mod: func(c *config.Config, lc *config.LMDB) {
 				c.LMDBPollInterval = time.Millisecond
 				c.StoragePollInterval = time.Millisecond
-				c.Storage.Cleanup = config.Cleanup{Enabled: true, Interval: 5 * time.Millisecond, MustKeepInterval: 20 * time.Millisecond, RemoveOldInstancesInterval: time.Hour}
+				c.Storage.Cleanup = config.Cleanup{Enabled: true, Interval: 5 * time.Millisecond, MustKeepInterval: 20 * time.Millisecond, RemoveOldInstancesInterval: 30 * time.Minute}
 				c.Sweeper = config.Sweeper{Enabled: true, RetentionDays: 1, Interval: 5 * time.Millisecond, FirstInterval: time.Millisecond, LockDuration: 5 * time.Millisecond, ReleaseDuration: time.Millisecond}
 			}})
 			if err != nil {
@@ -1479,6 +1480,23 @@ func areaConcRaceChild(r *Rng, n int, dir string) (*AreaOut, error) {
 				}
 			}(ev)
 		}
+		// a third instance that went silent an hour ago keeps (re)appearing with old snapshots: both live instances
+		// merge them (the sync loop records them) while their cleaners judge the stale instance (and ask what has
+		// been committed) and delete its superseded snapshots
+		wg.Add(1)
+		go func() {
+			defer wg.Done()
+			old := time.Now().Add(-time.Hour)
+			for i := 0; ctx.Err() == nil; i++ {
+				ts := old.Add(time.Duration(i) * time.Millisecond)
+				sn := buildSnapshot(3, 1, "z", uint64(ts.UnixNano()), []snapDBI{{Name: "data", Entries: []snapshot.KV{{Key: []byte(fmt.Sprintf("z%d", i%5)), Value: []byte("zv"), TimestampNano: uint64(ts.UnixNano())}}}})
+				if blob, _, err := snapshot.DumpData(sn); err == nil {
+					_ = bucket.Store(ctx, snapshot.Name(dbName, "z", "G-stale", ts), blob)
+					count("sync.stale-snapshot", 1)
+				}
+				time.Sleep(3 * time.Millisecond)
+			}
+		}()
 		time.Sleep(dur)
 		cancel()
 		for i := 0; i < 2; i++ {
